@@ -208,9 +208,11 @@ def _parse():
 c = _parse(); twin = _parse()
 def state():
     try:
+        s_, r_ = str(c), repr(c)   # renderings first, then the reads of derived attributes
+        st_ = [str(t) for dd in c.instrument_tracks.values() for t in dd.values()]
         o = observe(c)
         o["track_map_order"] = [[i.name, [d.name for d in dd]] for i, dd in c.instrument_tracks.items()]
-        o["str"], o["repr"] = str(c), repr(c)
+        o["str"], o["repr"], o["str_tracks"] = s_, r_, st_
     except Exception as e:   # a chart that can no longer be observed has changed
         o = dict(unobservable="%s: %s" % (type(e).__name__, e))
     return (o, c == twin, twin == c)
@@ -261,11 +263,16 @@ def plan(tier, seed):
 
 def fingerprint(c, twin):
     try:
+        # the renderings are taken FIRST: the observation below reads derived attributes (header_tag ...), and a
+        # rendering that depends on what was read before must show up as a change
+        s_, r_ = str(c), repr(c)
+        st_ = [str(t) for dd in c.instrument_tracks.values() for t in dd.values()]
         o = impl.observe(c)
         # order-sensitive public data: iteration order of the track map and the chart's own rendering
         o["track_map_order"] = [[i.name, [d.name for d in dd]] for i, dd in c.instrument_tracks.items()]
-        o["str"] = str(c)
-        o["repr"] = repr(c)
+        o["str"] = s_
+        o["repr"] = r_
+        o["str_tracks"] = st_
     except Exception as e:  # noqa: BLE001 - a chart that can no longer be observed has changed
         o = dict(unobservable="%s: %s" % (type(e).__name__, e), keys=repr(list(c.instrument_tracks))[:300])
     return o, (c == twin), (twin == c)
@@ -316,6 +323,13 @@ def run_shard(shard, ctx):
     twin = parse_chart(cname)
     c0 = parse_chart(cname)
     s0 = fingerprint(c0, twin)
+    s0b = fingerprint(c0, twin)
+    if s0b != s0:
+        # the observation itself is a sequence of read-only public reads (fields, derived attributes, renderings)
+        from ..refmodel import diff
+
+        ctx.violation("mutated-by:observation", dict(chart=cname, ops=[]), "chart %s: observing it twice (public fields, derived attributes such as header_tag / end_tick, str, repr) gives two different results: %s" % (cname, diff(s0b[0], s0[0]) or "twin equality %r vs %r" % (s0b[1:], s0[1:])), script=SCRIPT.format(observe_src=impl.OBSERVE_SRC, prelude=PRELUDE, text=text, ops=[], want=WANT.get(cname)).replace("s0 = state()", "s0 = state()\nif state() != s0:\n    print('VIOLATED: observing the chart twice gives two different results'); sys.exit(1)"))
+        return
     if not (s0[1] and s0[2]):
         ctx.violation("twin-unequal", dict(chart=cname, ops=[]), "two parses of the same text are not equal (chart %s)" % cname, script=SCRIPT.format(observe_src=impl.OBSERVE_SRC, prelude=PRELUDE, text=text, ops=[], want=WANT.get(cname)).replace("s0 = state()", "s0 = state()\nif not (s0[1] and s0[2]):\n    print('VIOLATED: two parses of the same text are not equal'); sys.exit(1)"))
         return
@@ -343,7 +357,10 @@ def replay(case):
     ctx = Ctx(0, time.time() + 600)
     text = CHARTS[case["chart"]]
     twin = parse_chart(case["chart"])
-    s0 = fingerprint(parse_chart(case["chart"]), twin)
+    c_ = parse_chart(case["chart"])
+    s0 = fingerprint(c_, twin)
+    if fingerprint(c_, twin) != s0:
+        return [dict(key="mutated-by:observation", msg="observing the chart twice gives two different results", case=case)]
     if not (s0[1] and s0[2]):
         return [dict(key="twin-unequal", msg="two parses of the same text are not equal", case=case)]
     run_seq(ctx, case["chart"], text, tuple(case["ops"]), twin, s0, set())
